@@ -81,7 +81,7 @@ def run(cx):
                     dq.append(y)
         cx.guard(inst, b, [(l, "reply") for l in sends], [[r"is\(HashMap::get\(arg1\.clients,arg2\),None\)"]], construct="reply to a repeated SYN",
                  why="a repeated SYN for a known address must not trigger another transmission")
-        if n_pre < 6:
+        if n_pre < 3:
             inst.violation("<server>", "pre-handshake sends", "fewer pre-handshake send sites than counted by hand (anchor)")
     with cx.instance("C18.b", "T1x EXACT-GUARD", "a SYN is parsed only at exactly HANDSHAKE_SYN_FRAME_PAYLOAD_SIZE bytes", floor=1) as inst:
         b = R.body("frame::serial::read_handshake_syn_payload")
